@@ -76,7 +76,11 @@ func loadEngine(repo string) (*Engine, error) {
 		}
 	}
 	for f := range ssautil.AllFunctions(prog) {
-		if f.Pkg != nil && strings.HasPrefix(f.Pkg.Pkg.Path(), "github.com/DemoHn/Zn") || f.Parent() != nil {
+		root := f
+		for root.Parent() != nil {
+			root = root.Parent()
+		}
+		if root.Pkg != nil && strings.HasPrefix(root.Pkg.Pkg.Path(), "github.com/DemoHn/Zn") {
 			k := fnKey(f)
 			if _, dup := eng.funcs[k]; !dup {
 				eng.funcs[k] = f
